@@ -454,6 +454,21 @@ def gen_call_sites():
     return '\n'.join(out)
 
 
+def gen_raw_pkval():
+    """EntityMeta._get_by_raw_pkval_: a raw key value is validated with the caller's from_db, and when the key attribute is itself a
+    relationship the nested call forwards from_db unchanged (otherwise values arriving through two relationship hops would be
+    converted with sql2py instead of validated)."""
+    rel = 'pony/orm/core.py'
+    fdef, src, lineno = load_function(rel, 'EntityMeta._get_by_raw_pkval_')
+    texts = [ast.unparse(n) for n in ast.walk(fdef) if isinstance(n, (ast.Assign, ast.If))]
+    want = 'if not attr.reverse:\n    val = attr.validate(val, None, entity, from_db=from_db)\nelse:\n    val = attr.py_type._get_by_raw_pkval_((val,), from_db=from_db, seed=seed)'
+    if want not in texts:
+        raise TranslateError('EntityMeta._get_by_raw_pkval_: the single-column branch is no longer `validate(..., from_db=from_db)` / nested `_get_by_raw_pkval_(..., from_db=from_db, ...)`')
+    return ('(* %s:%d EntityMeta._get_by_raw_pkval_: single-column key: validate with the caller\'s from_db, the nested call forwards from_db *)\n'
+            'Fixpoint raw_key_outcome {V : Type} (validate : V -> result V) (hops : nat) (v : V) : result V :=\n'
+            '  match hops with O => validate v | S h => raw_key_outcome validate h v end.\n' % (rel, lineno))
+
+
 def gen_dec_init():
     """DecimalConverter.init up to `converter.scale = scale`, for a declaration that gives precision/scale by keyword (or not at all:
     then the caller passes the defaults read from the source)."""
@@ -503,6 +518,7 @@ def generate():
     out.append(gen_attr_set())
     out.append(gen_call_sites())
     out.append(gen_dec_init())
+    out.append(gen_raw_pkval())
     from py2coq import typedispatch
     out.append(typedispatch.generate())
     return '\n'.join(out)
